@@ -4,13 +4,14 @@ import common, gen, sqlgen, qast, qgen
 from common import Report, log
 
 MANIFEST = dict(
-    technique='Coq proof over a faithful model of Scanner.Scan (pkg/sql/security/scanner.go) on query trees traversed with the regenerated Children() table + position enumeration of the reference grammar (context closure = C14 completeness o local detector) + model-vs-implementation correspondence on reflected real trees x 4 thresholds + payload x position x layout x threshold oracle',
-    text='Theorems C16_context_closed (for EVERY statement of the reference grammar and EVERY expression / statement position in it, at any nesting, what the local detector reports on the payload node is reported by the scan), C16_threshold_filter (scan m = filter (sev >= m) (scan LOW), order and multiplicity kept), C16_counts_consistent, C16_scan_pure, C16_findings_sound and the per-payload detector lemmas (tautologies, OR-tautology, time-delay and dangerous functions, UNION with NULL columns / system tables; any letter case) are proved with no bound. The model is tied to the code on every run by the regenerated Children() table, by evaluating the model on the reflective dump of real parsed trees against the real findings (multiset of (pattern, severity)) for the four thresholds, and by prescribed tree = parsed tree for every rendered layout. An implementation-side oracle places every documented payload in every condition / expression / query position of the grammar (composed to depth 3), in 4 layouts, and checks presence with documented class and severity, exact threshold filtering, counts = lists, helper predicates, tree snapshot unchanged, results independent of earlier scans on a long-lived Scanner. ScanSQL (regular expressions) is exercised by the oracle only.',
+    technique='Coq proof over a faithful model of Scanner.Scan (pkg/sql/security/scanner.go) on query trees traversed with the regenerated Children() table started from the statements the probed roots table admits (the choice of roots made by Scan is part of the model) + position enumeration of the reference grammar (context closure = roots o C14 completeness o local detector) + model-vs-implementation correspondence on reflected real trees x 4 thresholds + payload x position x layout x threshold oracle',
+    text='Theorems C16_context_closed (for EVERY statement of the reference grammar - queries, DML and the statements that carry a query or an expression without being queries: CREATE VIEW / MATERIALIZED VIEW ... AS query, CREATE INDEX ... WHERE, CREATE TABLE ... DEFAULT / CHECK, EXPLAIN query - and EVERY expression / statement position in it, at any nesting and any depth (structural induction, no bound), what the local detector reports on the payload node is reported by the scan), C16_statement_is_root (the scan starts from the statement whatever its type: hypothesis roots_cover scan_root discharged on the roots table probed on the compiled Scan each run), C16_threshold_filter (scan m = filter (sev >= m) (scan LOW), order and multiplicity kept), C16_counts_consistent, C16_scan_pure, C16_findings_sound and the per-payload detector lemmas (tautologies, OR-tautology, time-delay and dangerous functions, UNION with NULL columns / system tables; any letter case) are proved with no bound. The model is tied to the code on every run by the regenerated Children() table, by evaluating the model on the reflective dump of real parsed trees against the real findings (multiset of (pattern, severity)) for the four thresholds, by prescribed tree = parsed tree for every rendered layout, and by both correspondences on flat operator chains of 150 (quick) / 400 (thorough) operands with the payload among the first operands (trees as deep as they are long). C16_explain_query_dropped_refuted records the defect the extended grammar exposed (EXPLAIN query: the parser dropped the query; repaired in /repo c61589e). An implementation-side oracle places every documented payload in every condition / expression / query position of the grammar (composed to depth 3), in 4 layouts, and checks presence with documented class and severity, exact threshold filtering, counts = lists, helper predicates, tree snapshot unchanged, results independent of earlier scans on a long-lived Scanner. ScanSQL (regular expressions) is exercised by the oracle only.',
     note=common.BASE_NOTE + "C16: ScanSQL's regular expressions are not modelled (Go regexp semantics) - oracle only. Unicode case mapping of operator / function names is not modelled (ASCII upper).",
     design='6/C16')
 
 THEOREMS = ["Props.C16.C16_threshold_filter", "Props.C16.C16_counts_consistent", "Props.C16.C16_scan_pure",
-            "Props.C16.C16_position_visited", "Props.C16.C16_context_closed", "Props.C16.C16_findings_sound",
+            "Props.C16.C16_position_visited", "Props.C16.C16_statement_is_root", "Props.C16.C16_context_closed",
+            "Props.C16.C16_explain_query_dropped_refuted", "Props.C16.C16_findings_sound",
             "Props.C16.C16_literal_tautology", "Props.C16.C16_column_tautology", "Props.C16.C16_or_tautology",
             "Props.C16.C16_time_function", "Props.C16.C16_dangerous_function", "Props.C16.C16_union_nulls",
             "Props.C16.C16_union_system_table"]
@@ -19,7 +20,7 @@ RANK = {l: i for i, l in enumerate(LEVELS)}
 PCODE = {"TAUTOLOGY": 0, "UNION_BASED": 1, "TIME_BASED": 2, "OUT_OF_BAND": 3}
 
 PREAMBLE = ("From Coq Require Import List String NArith Bool.\n"
-            "From GV Require Import Model.Walk Model.QAst Model.Extract Model.QRef Model.QCase Model.Scan Gen.ChildrenTable Gen.QSlots.\n"
+            "From GV Require Import Model.Walk Model.QAst Model.Extract Model.QRef Model.QCase Model.Scan Gen.ChildrenTable Gen.QSlots Gen.QRoots.\n"
             "Import ListNotations.\nLocal Open Scope string_scope.\nLocal Open Scope list_scope.\n")
 
 def col(n, q=""): return ("col", q, n)
@@ -85,6 +86,11 @@ def cond_contexts():
         ("delete_where", lambda p: ("delete", [], "t1", [], p)),
         ("merge_on", lambda p: ("merge", tn("t1"), tn("t2"), p, [("wdelete", None)])),
         ("merge_when_and", lambda p: ("merge", tn("t1"), tn("t2"), cmp_(col("id", "t1"), col("id", "t2")), [("wupdate", p, [("a", lit(1))])])),
+        # statements that carry an expression without being queries
+        ("create_index_where", lambda p: ("createindex", (False, False, ""), "zi1", "t1", [("zk1", "")], p)),
+        ("create_unique_index_where_and", lambda p: ("createindex", (True, True, "btree"), "zs.zi2", "s1.t4", [("zk1", "DESC"), ("zk2", "")], ("bin", "AND", cmp_(col("b"), lit(2)), p))),
+        ("create_table_column_check", lambda p: ("createtable", (False, False), "zt1", [("zk1", "INT", [("plain", "NOT NULL"), ("check", p)])], [])),
+        ("create_table_check", lambda p: ("createtable", (False, True), "zt1", [("zk1", "INT", []), ("zk2", "TEXT", [])], [("plain", "UNIQUE", ["zk1"]), ("check", p)])),
     ]
 
 def expr_contexts():
@@ -104,6 +110,8 @@ def expr_contexts():
         ("update_set", lambda e: ("update", [], "t1", [(col("a"), e)], [], cmp_(col("id"), lit(1)))),
         ("merge_set", lambda e: ("merge", tn("t1"), tn("t2"), cmp_(col("id", "t1"), col("id", "t2")), [("wupdate", None, [("a", e)])])),
         ("merge_insert_values", lambda e: ("merge", tn("t1"), tn("t2"), cmp_(col("id", "t1"), col("id", "t2")), [("winsert", None, ["a"], [e])])),
+        ("create_table_default", lambda e: ("createtable", (False, False), "zt1", [("zk1", "INT", [("default", e)]), ("zk2", "INT", [("plain", "NOT NULL")])], [])),
+        ("create_index_where_operand", lambda e: ("createindex", (False, False, ""), "zi1", "t1", [("zk1", "")], cmp_(e, lit(0), ">"))),
     ]
 
 def query_contexts():
@@ -127,7 +135,42 @@ def query_contexts():
         ("update_from_graft", lambda q: ("update", [], "t1", [(col("a"), lit(1))], [("tsub", q, "zal3")], None) if q[0] == "select" else None),
         ("delete_using_graft", lambda q: ("delete", [], "t1", [("tsub", q, "zal3")], None) if q[0] == "select" else None),
         ("merge_source_graft", lambda q: ("merge", tn("t1"), ("tsub", q, "zal4"), cmp_(col("id", "t1"), col("id", "zal4")), [("wdelete", None)]) if q[0] == "select" else None),
+        # statements that carry a query without being queries (the body must start with SELECT: no WITH clause of its own)
+        ("create_view_body", lambda q: ("createview", ("", False, ""), "zv1", [], q) if viewable(q) else None),
+        ("create_or_replace_view_cols_body", lambda q: ("createview", ("OR REPLACE", False, "WITH CHECK OPTION"), "zs.zv2", ["zc1", "zc2"], q) if viewable(q) else None),
+        ("create_matview_body", lambda q: ("creatematview", (True, "WITH NO DATA"), "Zmv3", [], q) if viewable(q) else None),
+        ("explain_query", lambda q: ("explain", "EXPLAIN", q) if viewable(q) else None),
+        ("describe_query", lambda q: ("explain", "DESCRIBE", q) if viewable(q) else None),
     ]
+
+
+def viewable(q):
+    """the parser reads the body of CREATE VIEW with parseSelectWithSetOperations after the keyword SELECT"""
+    l = r = q
+    while l[0] == "setop":
+        l = l[3]
+    while r[0] == "setop":
+        r = r[4]
+    return l[0] == "select" and not l[1] and r[0] == "select" and bool(r[3])      # (a SELECT without FROM cannot be followed by WITH ... OPTION)
+
+
+def chain_cases(k):
+    """flat operator chains as statements of the reference grammar: the payload among the FIRST operands (deepest in
+    the left-deep tree the parser builds), k further operands after it"""
+    T = ("TAUTOLOGY", "CRITICAL")
+    sleep = cmp_(("func", "SLEEP", [lit(5)]), lit(0), ">")
+    out = [("or", qgen.flat_chain("or", k, [cmp_(col("name"), slit("")), cmp_(lit(1), lit(1))]), T),
+           ("and", qgen.flat_chain("and", k, [cmp_(slit("a"), slit("a")), cmp_(col("b"), lit(2))]), T),
+           ("or_sleep", qgen.flat_chain("or", k, [sleep]), ("TIME_BASED", "HIGH")),
+           ("concat", qgen.flat_chain("concat", k, [("func", "LOAD_FILE", [slit("/etc/passwd")])]), ("OUT_OF_BAND", "CRITICAL")),
+           ("plus", qgen.flat_chain("plus", k, [("func", "pg_sleep", [lit(5)]), col("amount")]), ("TIME_BASED", "HIGH")),
+           ("union_all_nulls", qgen.flat_chain("union_all", k, [sel([col("a"), col("b")], [tn("t1")]), sel([NULL, NULL], [tn("t3")])]), ("UNION_BASED", "HIGH")),
+           ("union_all_where", qgen.flat_chain("union_all", k, [sel([col("a")], [tn("t1")], wh=cmp_(col("id"), col("id")))]), T)]
+    st = qgen.flat_chain("or", k, [cmp_(col("b"), lit(2))])
+    out.append(("or_then_having", st[:6] + ([col("a")], cmp_(lit(1), lit(1)), []), T))
+    out.append(("view_or", ("createview", ("", False, ""), "zv1", [], qgen.flat_chain("or", k, [cmp_(col("name"), slit("")), cmp_(lit(2), lit(2))])), T))
+    out.append(("index_and", ("createindex", (False, False, ""), "zi1", "t1", [("zk1", "")], qgen.flat_chain("and", k, [sleep])[5]), ("TIME_BASED", "HIGH")))
+    return [dict(stmt=st, payload="chain_" + n, expected=exp, position="flat_chain:" + n, chain=True) for n, st, exp in out]
 
 
 def build_cases(rng, quick):
@@ -261,6 +304,41 @@ def position_class(pos):
     return pos.split(">")[0]
 
 
+def witness_regressions(rp):
+    """replay the witnesses of known_findings.d/C16.json on the implementation: a fixed one must pass"""
+    for k in common.known_findings("C16"):
+        w = k.get("witness")
+        if not w or "sql" not in w:
+            continue
+        wr = run_harness([dict(w, id=0)], rp, "witness")
+        if not wr or not wr[0]["accepted"]:
+            continue
+        fails = check_result(wr[0], (w["payload"]["pattern"], w["payload"]["severity"]) if w.get("payload") else None)
+        if k["status"] == "fixed" and fails:
+            rp.violation({"kind": "regression", "known_key": k["key"], "input": w, "failure": fails,
+                          "explanation": "a defect recorded as fixed is back"}, "regression_" + k["key"])
+        if k["status"] == "known" and not fails:
+            rp.cov["notes"].append("stale known finding (witness passes now): " + k["key"])
+
+
+def probe_roots(rp):
+    """which top-level statement kinds does Scanner.Scan start a traversal from?  One statement of each statement kind
+    of the reference grammar carrying SLEEP(5) (lib/qast.py ROOT_PROBES) -> Gen/QRoots.v.  Returns ({kind: bool}, not-roots)"""
+    res = run_harness([{"id": i, "sql": sql} for i, (_, _, sql) in enumerate(qast.ROOT_PROBES)], rp, "roots")
+    roots, missing, notes = {}, [], []
+    for (k, ty, sql), r in zip(qast.ROOT_PROBES, res or []):
+        if not r["accepted"] or not r.get("tree") or r["tree"][0]["t"] != ty:
+            notes.append("root probe not usable (parser: %s): %s" % ((r.get("err") or "other statement type").split("\n")[0][:80], sql))
+            continue
+        roots[k] = any(f["p"] == "TIME_BASED" and f["s"] == "HIGH" for f in r["runs"][0]["f"])
+        if not roots[k]:
+            missing.append((k, ty, sql, r))
+    if notes:
+        rp.cov["notes"] += notes
+    rp.cov["scan_roots_probed"] = {k: roots.get(k) for k, _, _ in qast.ROOT_PROBES}
+    return roots, missing
+
+
 def run(tier):
     rp = Report("C16", tier)
     rng = random.Random(common.seed())
@@ -270,20 +348,44 @@ def run(tier):
             tables = common.stage_tables()
             ct, _ = gen.emit_children(tables)
             tb, _ = qast.emit_qslots(ct)
+            roots, not_roots = probe_roots(rp)
+            qast.emit_qroots(roots)
+            # the roots instance lemma is built on its own: when it fails the model (with the probed roots) still runs
+            ok_roots, log_roots = common.coq_make(["theories/Inst/Inst_C16.vo"])
+            if not ok_roots:
+                for ext in (".vo", ".vos", ".vok", ".glob"):
+                    try:
+                        os.remove(os.path.join(common.COQ, "theories/Inst/Inst_C16" + ext))
+                    except OSError:
+                        pass
             ok_inst, ok_props, _, logs = common.coq_stage(
-                rp, ["theories/Inst/Inst_C15.vo", "theories/Proofs/ScanP.vo", "theories/Model/QCase.vo"],
+                rp, ["theories/Inst/Inst_C15.vo", "theories/Proofs/ScanP.vo", "theories/Model/QCase.vo", "theories/Gen/QRoots.vo"],
                 "theories/Props/C16.v", THEOREMS, inst_names=["Inst_C15.em_covers_ok"])
+            rp.obligation("Inst_C16.roots_cover_ok", ok_roots, "" if ok_roots else log_roots[-300:])
     except common.StageError as e:
+        if e.stage == "qslots":         # a modelled node type / field is gone: is a repaired defect back?  (failing input for the report)
+            witness_regressions(rp)
         return common.stage_fail(rp, e)
+    # a statement kind of the grammar Scan does not start from: the probe statement is the failing input
+    for k, ty, sql, r in not_roots:
+        rp.violation({"kind": "oracle", "property": "C16", "input": {"sql": sql, "payload": {"pattern": "TIME_BASED", "severity": "HIGH"}},
+                      "failure": "missing:TIME_BASED/HIGH", "statement_type": ty, "findings_low": r["runs"][0]["f"],
+                      "theorem": "Inst_C16.roots_cover_ok (hypothesis of C16_statement_is_root / C16_context_closed)",
+                      "explanation": "Scanner.Scan does not start a traversal from a top-level statement of this type: a payload inside it is never reported"},
+                     "root_not_scanned_%s" % ty)
     known = {json.dumps(k["signature"], sort_keys=True): k for k in common.known_findings("C16") if k.get("status") == "known"}
 
     cases, deep = build_cases(rng, quick)
+    kc = 150 if quick else 400
+    chains = chain_cases(kc)
     lays = qgen.layouts(rng)
     inputs, meta = [], []
-    for ci, c in enumerate(cases + deep):
+    for ci, c in enumerate(cases + deep + chains):
         use = lays
         for li, L in enumerate(use):
             d = qgen.harness_input(c["stmt"], L)
+            if c.get("chain") and li == 0:
+                d["sql"] = d["sql"].replace(" OR ", "\n OR ").replace(" AND ", "\n AND ").replace(" UNION ", "\n UNION ")   # the tokenizer is quadratic in line length
             d["payload"] = {"pattern": c["expected"][0], "severity": c["expected"][1]}
             inputs.append(d); meta.append((c, lays.index(L)))
     n_payload = len(inputs)
@@ -303,6 +405,8 @@ def run(tier):
     for (c, li), d, r in zip(meta, inputs[:n_payload], res[:n_payload]):
         if not r["accepted"]:
             rejected.append((c, li, d, r))
+            if c.get("chain"):
+                failures.append((c, li, d, r, "rejected: a flat chain of %d operands is not accepted" % kc))
             continue
         seen_cells.add((c["payload"], c["position"], li))
         pos_classes.add(c["position"])
@@ -405,46 +509,43 @@ def run(tier):
                   texts is not None and not [1 for t, pat, sv, fs in sql_bad if json.dumps({"kind": "scansql", "pattern": pat, "text": t}, sort_keys=True) not in known])
 
     # ---- known / fixed witnesses ----
-    for k in common.known_findings("C16"):
-        w = k.get("witness")
-        if not w or "sql" not in w:
-            continue
-        wr = run_harness([dict(w, id=0)], rp, "witness")
-        if not wr or not wr[0]["accepted"]:
-            continue
-        fails = check_result(wr[0], (w["payload"]["pattern"], w["payload"]["severity"]) if w.get("payload") else None)
-        if k["status"] == "fixed" and fails:
-            rp.violation({"kind": "regression", "known_key": k["key"], "input": w, "failure": fails,
-                          "explanation": "a defect recorded as fixed is back"}, "regression_" + k["key"])
-        if k["status"] == "known" and not fails:
-            rp.cov["notes"].append("stale known finding (witness passes now): " + k["key"])
+    witness_regressions(rp)
 
     # ---- correspondences inside Coq ----
     unknown = set()
-    acc = [r for r in res if r["accepted"] and not r.get("panic") and r.get("tree") and 1 < r["nodes"] <= 1200]
+    chain_ids = {d["id"] for (c, li), d in zip(meta, inputs[:n_payload]) if c.get("chain")}
+    acc = [r for r in res if r["accepted"] and not r.get("panic") and r.get("tree") and 1 < r["nodes"] <= 1200 and r["id"] not in chain_ids]
     rng.shuffle(acc)
     sample = acc[:400 if quick else 3000]
     refc = [(c, d, r) for (c, li), d, r in zip(meta, inputs[:n_payload], res[:n_payload])
-            if r["accepted"] and len(r.get("tree") or []) == 1 and r["nodes"] <= 400]
+            if r["accepted"] and len(r.get("tree") or []) == 1 and r["nodes"] <= 400 and not c.get("chain")]
     rng.shuffle(refc)
     refc = refc[:300 if quick else 2400]
+    # flat chains: never sampled away, no size limit; model on the dump of the real tree in every layout, prescribed tree in layout 0
+    chain_x = [r for (c, li), r in zip(meta, res[:n_payload]) if c.get("chain") and r["accepted"] and r.get("tree")]
+    chain_r = [(c, d, r) for (c, li), d, r in zip(meta, inputs[:n_payload], res[:n_payload])
+               if c.get("chain") and li == 0 and r["accepted"] and len(r.get("tree") or []) == 1]
+    rp.cov["flat_chain_model_cases"] = {"operands": kc, "dumped_trees": len(chain_x), "prescribed_trees": len(chain_r),
+                                        "max_nodes": max([r["nodes"] for r in chain_x] or [0])}
     nsh = 6 if quick else 12
     jobs, owners = [], []
-    for si in range(nsh):
-        sh = sample[si::nsh]
+    shards_x = [sample[si::nsh] for si in range(nsh)] + [chain_x[i:i + 8] for i in range(0, len(chain_x), 8)]
+    shards_r = [refc[si::nsh] for si in range(nsh)] + [chain_r]
+    for si in range(max(len(shards_x), len(shards_r))):
+        sh = shards_x[si] if si < len(shards_x) else []
         if sh:
             body = PREAMBLE + "Definition cases : list (list qn * list (list N)) := [\n" + ";\n".join(
                 "(%s, %s)" % (qast.clist([qast.qn_term(t, tb, unknown) for t in r["tree"]]),
                               qast.clist([qast.clist(["%d%%N" % c for c in run_codes(run)]) for run in r["runs"]])) for r in sh) + "].\n"
-            body += "Definition bad := Eval vm_compute in bad_indices (scan_case_ok em) 0%N cases.\nPrint bad.\n"
+            body += "Definition bad := Eval vm_compute in bad_indices (scan_case_ok em scan_root) 0%N cases.\nPrint bad.\n"
             jobs.append(("c16_x_%d" % si, body)); owners.append(("x", sh))
-        sh = refc[si::nsh]
+        sh = shards_r[si] if si < len(shards_r) else []
         if sh:
             body = PREAMBLE + "Definition cases : list (mstmt * qn * N) := [\n" + ";\n".join(
                 "(%s, %s, %d%%N)" % (qgen.coq_stmt(c["stmt"]), qast.qn_term(r["tree"][0], tb, unknown),
                                      PCODE[c["expected"][0]] * 4 + RANK[c["expected"][1]]) for c, d, r in sh) + "].\n"
             body += ("Definition ok (c : mstmt * qn * N) : bool := tree_agrees (ast_stmt (fst (fst c))) (snd (fst c)) && "
-                     "existsb (N.eqb (snd c)) (map fcode (scan_findings em (Some Low) [ast_stmt (fst (fst c))])).\n"
+                     "existsb (N.eqb (snd c)) (map fcode (scan_findings em scan_root (Some Low) [ast_stmt (fst (fst c))])).\n"
                      "Definition bad := Eval vm_compute in bad_indices ok 0%N cases.\nPrint bad.\n")
             jobs.append(("c16_r_%d" % si, body)); owners.append(("r", sh))
     bad_x, bad_r, coq_fail = [], [], None
@@ -460,8 +561,8 @@ def run(tier):
         if coq_fail:
             rp.violation({"kind": "correspondence", "detail": coq_fail}, "cases_coq", no_input=True)
     rp.cov["traces_validated_against_model"] = len(sample)
-    rp.obligation("correspondence: Coq scan model on the dump of %d real trees = Scanner.Scan findings (multiset of pattern x severity) x 4 thresholds" % len(sample),
-                  ok_inst and not bad_x and not coq_fail)
+    rp.obligation("correspondence: Coq scan model on the dump of %d real trees (+ %d flat chains of %d operands, every layout) = Scanner.Scan findings (multiset of pattern x severity) x 4 thresholds" % (len(sample), len(chain_x), kc),
+                  ok_inst and not bad_x and not coq_fail and len(chain_x) == 4 * len(chains))
     for r in bad_x[:3]:
         d = inputs[r["id"]]
         exp = (d["payload"]["pattern"], d["payload"]["severity"]) if d.get("payload") else None
@@ -470,8 +571,8 @@ def run(tier):
                       "findings": [run["f"] for run in r["runs"]],
                       "explanation": "the scan model evaluated on the reflective dump of the real tree disagrees with the real Scanner.Scan"},
                      "model_mismatch_%d" % len(rp.violations), no_input=not fails)
-    rp.obligation("tie: prescribed tree of (context o payload) = dump(parse(render)) and the model reports the expected finding, on %d payload statements in all layouts" % len(refc),
-                  ok_inst and not bad_r and not coq_fail)
+    rp.obligation("tie: prescribed tree of (context o payload) = dump(parse(render)) and the model reports the expected finding, on %d payload statements in all layouts + %d flat chains" % (len(refc), len(chain_r)),
+                  ok_inst and not bad_r and not coq_fail and len(chain_r) == len(chains))
     for c, d, r in bad_r[:3]:
         fails = check_result(r, tuple(c["expected"]))
         rp.violation({"kind": "correspondence", "input": {k: d[k] for k in d if k != "id"}, "payload": c["payload"], "position": c["position"],
@@ -487,14 +588,16 @@ def run(tier):
     rp.cov["rule"] = ("every documented payload (tautologies 1=1, 'a'='a', col=col, OR 1=1; SLEEP/pg_sleep/BENCHMARK/WAITFOR; LOAD_FILE/xp_cmdshell/sp_OACreate/UTL_HTTP/DBMS_LDAP/sp_executesql; "
                       "UNION SELECT NULL,NULL / UNION SELECT .. FROM system table) x every position of the reference grammar that can hold it "
                       "(WHERE, AND/OR/NOT operands, HAVING, JOIN ON, CASE, select item, function arguments, IN list, BETWEEN, CAST, GROUP/ORDER BY, INSERT VALUES, UPDATE SET/WHERE, DELETE WHERE, MERGE ON/WHEN/SET/VALUES, "
-                      "derived table (also as first item of a join), join right side, IN/EXISTS/scalar sub-query, CTE body, INSERT..SELECT, set-operation operands, grafted UPDATE..FROM / DELETE..USING / MERGE source), composed to depth 3, "
+                      "derived table (also as first item of a join), join right side, IN/EXISTS/scalar sub-query, CTE body, INSERT..SELECT, set-operation operands, grafted UPDATE..FROM / DELETE..USING / MERGE source, "
+                      "body of CREATE [OR REPLACE] VIEW / CREATE MATERIALIZED VIEW / EXPLAIN / DESCRIBE, CREATE INDEX ... WHERE, CREATE TABLE column DEFAULT / column CHECK / table CHECK), composed to depth 3, "
+                      "flat OR / AND / || / + / UNION ALL chains of 150|400 operands with the payload among the first operands (also as view body and index predicate), "
                       "x 4 layouts (keyword case, whitespace, redundant parentheses, optional AS) x 4 thresholds; distinct = distinct (payload, position); non-trivial = accepted by the parser")
     rp.cov["samples"] = [{"sql": d["sql"][:160], "position": c["position"], "expected": c["expected"], "findings_low": r["runs"][0]["f"] if r["accepted"] else None}
                          for (c, li), d, r in list(zip(meta, inputs, res))[:3]]
     rp.assumptions = ["the reflective dump (harness/qast.go) is a faithful image of the parsed tree (exported fields)",
                       "Children() is field-wise uniform (C14 correspondence)",
                       "ScanSQL's regular expressions are outside the model: only the listed text variants are exercised"]
-    if ok_inst and not ok_props:
+    if ok_inst and not ok_props and (ok_roots or not not_roots):
         rp.violation({"kind": "proof", "theorem": "Props/C16.v", "log": logs["props"][-3000:]}, "props_c16", no_input=True)
     if not ok_inst and not rp.violations:
         rp.violation({"kind": "proof", "theorem": "Inst_C15.em_covers_ok / Proofs", "log": logs["inst"][-3000:]}, "inst_c16", no_input=True)
